@@ -271,6 +271,27 @@ def apply(c):
     c.wr(rel, s[:jb + m.start()] + new + s[le:])
     c.log.append(('rewrite', rel, 'R3 x1 (enumerate() -> explicit counter in Name::compress_append)'))
 
+    # ---- R12: a VacantEntry that is inserted only on one branch is moved on the other branch too.
+    # (Verus 0.2026.09.13 assumes `has_resolved(e)` at the end of the scope of a *conditionally* moved value; together with
+    #  the post-condition of VacantEntry::insert this makes the inserting path contradictory, i.e. everything after it verifies
+    #  vacuously -- reproduced in /verif/tools/verus_vacant_entry_bug.rs.  With the value moved on every path no resolution is
+    #  assumed at scope end.  `let _vx_moved = e;` only drops the entry, which is what the implicit scope end does.)
+    jb, be = c.body(rel, NAME_IMPL, 'compress_append')
+    s = c.rd(rel)
+    n12 = 0
+    for m in reversed(list(re.finditer(r'if ([^{};]+?) \{\s*(\w+)\.insert\(([^;{}]*)\);\s*\}(?!\s*else)', s[jb:be]))):
+        a, b = jb + m.start(), jb + m.end()
+        s = s[:b] + ' else { let _vx_moved = %s; }' % m.group(2) + s[b:]
+        n12 += 1
+    if n12 == 0 and re.search(r'\.insert\(', c.rd(rel)[jb:be]):
+        # an insertion that is not of the recognised conditional shape: if it is unconditional no rewrite is needed; a
+        # conditional one of another shape must not be verified under the unsound resolution rule
+        if re.search(r'\bif\b[^{};]*\{[^{}]*\.insert\(', c.rd(rel)[jb:be]):
+            raise AnchorLost('%s: conditional entry insertion of unrecognised shape in compress_append (R12)' % rel)
+    c.wr(rel, s)
+    if n12:
+        c.log.append(('rewrite', rel, 'R12 x%d (conditionally inserted VacantEntry moved on the other branch too: works around an unsound resolution assumption of Verus)' % n12))
+
     c.contract(rel, NAME_IMPL, 'compress_append', """
         requires
             name_ok(self.lv()), at_end(old(out)), io_buf(old(out)).len() <= 0x7fff_ffff,
@@ -398,6 +419,8 @@ def apply(c):
         raise AnchorLost('%s: counter increment lost' % rel)
     ls = s.rfind('\n', 0, k) + 1
     c.wr(rel, s[:ls] + """            proof {
+                /* @cover: g_pos <= 0x3FFF */
+                /* @cover: g_pos > 0x3FFF */
                 assert(g_pos > 0x3FFF ==> name_refs@ == map_b);
                 assert(g_pos <= 0x3FFF ==> name_refs@ == map_b.insert(g_k0, g_pos));
                 lemma_vacant_step(map_b, name_refs@, refs0, g_k0, g_pos, g_pos <= 0x3FFF, m0.len() as int, lv, i as int);
